@@ -258,6 +258,8 @@ def rule_loop(ctx, rep):
         else:
             rep.ok("C09.lock", name, "_do_cds_lfht_resize runs with resize_mutex held", [x.where() for x in c])
     d = lfht.fn(ctx, "cds_lfht_destroy")
+    if not pat.calls_opt(d, "urcu_workqueue_queue_work"):
+        d = ctx.mod("cds", "flat").fn("cds_lfht_destroy") or d      # deferred branch extracted into a static helper: use the flattened entry point
     rep.touch(d)
     q = pat.calls(d, "urcu_workqueue_queue_work")
     fl = [s for s in pat.stores(d, "cds_lfht.in_progress_destroy") if ir.const_of(d, s.args[0]) == 1]
